@@ -23,6 +23,7 @@ impl Engine for An {
             "C08" | "C09" | "C10" => serde_json::to_value(hist::generate(prop, seed)).unwrap(),
             "C11" => serde_json::to_value(sweep::c11_generate(seed)).unwrap(),
             "C32" => serde_json::to_value(sweep::c32_generate(seed)).unwrap(),
+            "C35" => serde_json::to_value(sweep::c35_generate(seed)).unwrap(),
             _ => Value::Null,
         }
     }
@@ -31,6 +32,7 @@ impl Engine for An {
             "C08" | "C09" | "C10" => hist::run(prop, spec, verbose),
             "C11" => sweep::c11_run(spec, verbose),
             "C32" => sweep::c32_run(spec, verbose),
+            "C35" => sweep::c35_run(spec, verbose),
             _ => CaseReport { error: Some(format!("unknown property {prop}")), ..Default::default() },
         }
     }
@@ -38,11 +40,18 @@ impl Engine for An {
         match prop {
             "C08" | "C09" | "C10" | "C11" => hist::shrink(spec),
             "C32" => sweep::c32_shrink(spec),
+            "C35" => sweep::c35_shrink(spec),
             _ => vec![],
         }
     }
-    fn default_runs(&self, _prop: &str, tier: &str) -> u64 {
-        if tier == "thorough" { 200_000 } else { 1500 }
+    fn default_runs(&self, prop: &str, tier: &str) -> u64 {
+        match (prop, tier) {
+            ("C35", "thorough") => 3000,
+            ("C35", _) => 64,
+            ("C32", "quick") => 6000,
+            (_, "thorough") => 200_000,
+            _ => 1500,
+        }
     }
     fn rule(&self, prop: &str) -> String {
         match prop {
@@ -51,6 +60,7 @@ impl Engine for An {
             "C10" => "one evaluation = one generated workspace, optional edits, then removal of a seeded subset through the three removal paths; checked: no query result names a removed file, after reindex the observation equals a fresh analysis of the survivors, removing everything returns every index container to the empty-workspace baseline, 4 add+remove cycles hold no more state than 1; non-trivial = >=2 files and >=1 removal; distinct = distinct observation digests".into(),
             "C11" => format!("one evaluation = one generated workspace (cross-file globals with conflicting assignments, partial classes, aliases, enums, requires, cycles) registered in one fixed order through the batch path, optionally followed by a short history, executed under {} owned hash seeds on fresh threads; all canonical observations must be identical; non-trivial = >=2 files; distinct = distinct observation digests", sweep::sweep_width()),
             "C32" => "one evaluation = 1-3 generated configuration objects over the real key space (scalars and arrays, each key spelled flat or nested at random, occasionally a key that is both a value and a prefix) loaded in order through load_configs under 16 owned hash seeds; oracle 1: identical outcome (serialized Emmyrc or panic) under every seed; oracle 2: equals an independent flatten / later-wins / append-without-duplicates reference merge; non-trivial = >=2 files or >=2 keys; distinct = distinct outcome digests".to_string(),
+            "C35" => "one evaluation = one generated workspace on disk (3-8 files declaring uniquely named classes, enums, aliases, globals, modules; some split across files, some in a library root) exported with the real run_doc_cli(json) (std library loaded) under up to 6 owned hash seeds; output bytes must be identical; the first export must list every main-workspace type exactly once and nothing from the library root or std; non-trivial = >=3 files; distinct = distinct output digests".to_string(),
             _ => String::new(),
         }
     }
